@@ -297,6 +297,36 @@ byte_consts = [int(m_align.group(1)), int(m_byte.group(1)), int(m_byte.group(2),
                int(m_stuff.group(1), 16), int(m_flush.group(1), 16), int(m_flush.group(2)), int(m_rst0.group(1), 16),
                int(m_num.group(1))]
 
+# ---------------------------------------------------------------- decoder: lazy bit buffer and row counters
+jh = rd("jdhuff.h")
+mbb = re.search(r"#if SIZEOF_SIZE_T == 8 \|\| defined\(_WIN64\)\s*typedef size_t bit_buf_type;[^\n]*\n#define BIT_BUF_SIZE\s+(\d+)", jh)
+if not mbb:
+    die("jdhuff.h: BIT_BUF_SIZE of the 64-bit build not found")
+mmg = re.search(r"#define MIN_GET_BITS\s+\(BIT_BUF_SIZE - (\d+)\)", fb)
+if not mmg:
+    die("jdhuff.c: MIN_GET_BITS not found")
+min_get_bits = int(mbb.group(1)) - int(mmg.group(1))
+need(r"while \(bits_left < MIN_GET_BITS\) \{", fb, "jdhuff.c jpeg_fill_bit_buffer: fill loop")
+need(r"if \(cinfo->unread_marker == 0\) \{", fb, "jdhuff.c jpeg_fill_bit_buffer: marker test")
+need(r"if \(nbits > bits_left\) \{.*?WARNMS\(cinfo, JWRN_HIT_MARKER\);.*?insufficient_data = TRUE;.*?get_buffer <<= MIN_GET_BITS - bits_left;\s*bits_left = MIN_GET_BITS;",
+     re.sub(r"\s+", " ", fb), "jdhuff.c jpeg_fill_bit_buffer: zero fill after a marker")
+need(r"get_buffer = \(get_buffer << 8\) \| c;\s*bits_left \+= 8;", fb, "jdhuff.c jpeg_fill_bit_buffer: byte load")
+need(r"if \(diff->restart_rows_to_go == 0\)\s*if \(!process_restart\(cinfo, yoffset\)\) \{\s*diff->MCU_vert_offset = yoffset;\s*return JPEG_SUSPENDED;",
+     ddc, "jddiffct.c decompress_data: per-row restart test with MCU_vert_offset saved on suspension")
+need(r"diff->restart_pending \|= 1U << yoffset;\s*diff->restart_rows_to_go = cinfo->restart_interval / cinfo->MCUs_per_row;",
+     ddc, "jddiffct.c process_restart: restart_pending")
+need(r"if \(diff->restart_pending & 1\)\s*\(\*cinfo->idct->start_pass\) \(cinfo\);", ddc,
+     "jddiffct.c decompress_data: start_pass before undifferencing row 0 of a new interval")
+if len(re.findall(r"diff->restart_pending = 0;", ddc)) != 2:
+    die("jddiffct.c: restart_pending must be cleared in start_input_pass and after undifferencing")
+need(r"if \(cinfo->restart_interval\)\s*diff->restart_rows_to_go--;", ddc, "jddiffct.c: restart_rows_to_go--")
+dlc = strip_comments(dh)
+need(r"entropy->bitstate.bits_left = 0;.*?if \(!\(\*cinfo->marker->read_restart_marker\) \(cinfo\)\)\s*return FALSE;",
+     re.sub(r"\s+", " ", dlc), "jdlhuff.c process_restart")
+dmk = strip_comments(rd("jdmarker.c"))
+need(r"if \(cinfo->unread_marker ==\s*\(\(int\)M_RST0 \+ cinfo->marker->next_restart_num\)\) \{", dmk, "jdmarker.c read_restart_marker")
+need(r"cinfo->marker->next_restart_num = \(cinfo->marker->next_restart_num \+ 1\) & 7;", dmk, "jdmarker.c next_restart_num update")
+
 # ---------------------------------------------------------------- pixel formats
 th = rd("turbojpeg.h")
 
@@ -399,6 +429,10 @@ print("Definition gen_suspend_returns_mcu_num : bool := %s." % ("true" if fail_a
 print("Definition gen_resume_at_mcu_ctr : bool := %s.\n" % ("true" if ctr_adv else "false"))
 print("(* jclhuff.c emit_bits / flush_bits / emit_restart, jpeglib.h JPEG_RST0: align shift, byte shift, byte mask, loop bound,")
 print("   stuffed value, flush code, flush size, RST0, restart-number mask *)")
+print("(* jdhuff.h / jdhuff.c: MIN_GET_BITS of the 64-bit build; the shapes of jpeg_fill_bit_buffer, of the row loop of")
+print("   jddiffct.c decompress_data (restart test, MCU_vert_offset save, restart_pending) and of process_restart /")
+print("   read_restart_marker were found as the model (model/LosslessLazy.v) states them *)")
+print("Definition gen_min_get_bits : Z := %d.\n" % min_get_bits)
 print("Definition gen_byte_consts : list Z := [%s].\n" % "; ".join(str(x) for x in byte_consts))
 print("(* per TurboJPEG pixel format 0..11: turbojpeg.h (red, green, blue, alpha, pixel size) and, through turbojpeg.c pf2cs,")
 print("   jmorecfg.h (rgb_red, rgb_green, rgb_blue, rgb_pixelsize) of the colour space given to the converters *)")
